@@ -5,6 +5,9 @@ Part 1 is stated for the *bare* model (core type classes only, arbitrary `Env`):
 loop, `hashToScalar`, `messagesToScalar`, and the panic/err behaviour of `updateSignature`.
 Part 2 is in the `Lawful` setting (field of scalars, modules): `calcB_set`, the algebra of one
 update step, and `verify` unfolded.
+
+Everything lives in the namespace `Zk.Upd` (other lemma files define lemmas with the same short
+names, e.g. `genLoop_length`; the namespace keeps the modules importable together).
 -/
 import Mathlib.Algebra.BigOperators.Group.List.Basic
 import ZkProofs.Lemmas.Sig
@@ -12,8 +15,8 @@ import ZkProofs.Events
 set_option linter.unusedSectionVars false
 set_option linter.unusedSimpArgs false
 set_option linter.unusedVariables false
-namespace Zk
-open Res
+namespace Zk.Upd
+open Zk Res
 
 /-! ## Part 1: bare model -/
 
@@ -507,4 +510,4 @@ theorem verify_ok_iff (hl : Lawful env pair) (cs : Suite G1) (sk : S) (σ : Sign
 
 end lawful
 
-end Zk
+end Zk.Upd
